@@ -33,7 +33,7 @@ func (t *T0x0102) Parse(jtMsg *jt808.JTMessage) error {
 	if jtMsg.Header.ProtocolVersion == consts.JT808Protocol2019 {
 		version = consts.JT808Protocol2019
 	}
-	t.Version = version
+	*t = T0x0102{Version: version} // 清空上一次解析的内容
 
 	body := jtMsg.Body
 	if t.Version == consts.JT808Protocol2019 {
